@@ -94,15 +94,40 @@ def run_defs(spec, acc):
     quick = spec["tier"] == "quick"
     src_dec = NMEA2000Decoder()
     defs = [d for d in dbx.defs if d.encodable and d.type in ("Single", "Fast")]
-    # short payloads first: they are where framing goes wrong
+    # all definitions of one PGN number stay in one shard (= one process): what the encoder did for one sibling must
+    # not matter for the next. Short payloads first: they are where framing goes wrong
+    pgn_order = sorted({d.pgn for d in defs})
+    mine = {p_ for k, p_ in enumerate(pgn_order) if k % spec["n"] == spec["i"]}
+    defs = [d for d in defs if d.pgn in mine]
     defs.sort(key=lambda d: (d.length if d.length is not None else 99, d.index))
-    defs = [d for k, d in enumerate(defs) if k % spec["n"] == spec["i"]]
     n_payloads = 12 if quick else 600
-    addressing = [(0, 0, 255), (7, 255, 0), (3, 17, 239), (6, 253, 254)]
     long_lived: dict = {}
+    by_pgn: dict = {}
     for d in defs:
-        nb = d.length if d.length is not None else (d.total_bits() + 7) // 8
+        by_pgn.setdefault(d.pgn, []).append(d)
+    multi = [ds for ds in by_pgn.values() if len(ds) > 1]
+
+    def interleaved():
+        for ds in multi:
+            for c in range(24 if quick else 600):
+                one_case(dbx, rng, src_dec, long_lived, rng.choice(ds), 4 + c, acc, "interleaved-siblings")
+                acc.count("interleaved_sibling_cases")
+    interleaved()
+    for d in defs:
         for c in range(n_payloads):
+            one_case(dbx, rng, src_dec, long_lived, d, c, acc, "per-definition")
+    interleaved()
+
+
+ADDRESSING = [(0, 0, 255), (7, 255, 0), (3, 17, 239), (6, 253, 254)]
+
+
+def one_case(dbx, rng, src_dec, long_lived, d, c, acc, label):
+    from .c02 import classify_encode_error
+    addressing = ADDRESSING
+    nb = d.length if d.length is not None else (d.total_bits() + 7) // 8
+    if True:
+        if True:
             raws = gen.base_raws(d, rng, dbx)
             if c == 0:
                 raws = {f.order: (f.match if f.match is not None else 0) for f in d.fields}     # all-zero message
@@ -114,19 +139,40 @@ def run_defs(spec, acc):
                         raws[f.order] = rng.choice(cl)[1]
             payload = dbx.pack(d, raws)
             if dbx.select(d.pgn, payload) is not d:
-                continue
+                return
             m = source_message(dbx, src_dec, d, payload, nb)
             if m is None:
-                continue
+                return
             prio, src, dst = addressing[c % 4] if c < 4 else (rng.randrange(8), rng.randrange(256), rng.randrange(256))
             m.priority, m.source, m.destination = prio, src, dst
             pdu1 = ((d.pgn >> 8) & 0xFF) < 240
             enc = NMEA2000Encoder()
             try:
                 codec_payload = bytes.fromhex((enc.encode_actisense(m).split() + [""])[2])
-            except Exception:  # noqa: BLE001 - not encodable: outside the statement (C02/C09 judge that)
-                acc.count("source_not_encodable")
-                continue
+            except Exception as e:  # noqa: BLE001
+                # a message the decoder made from an in-range payload is an encodable message; the mechanisms C02
+                # already lists (its known findings) are left to C02
+                key, fid = classify_encode_error(dbx, d, payload, e)
+                if key in ("wide-field-top-codes-double-rounding", "absent-date-not-reencodable"):
+                    acc.count("source_not_encodable_mechanism_judged_by_C02")
+                    return
+                acc.violation("encodable-message-refused", f"{d.id} ({label}): the encoder refuses a message decoded from an in-range payload: {type(e).__name__}: {e}",
+                              {"definition": d.id, "label": label, "payload_hex": payload.to_bytes(nb, "little").hex()})
+                return
+            # "yield a message with the same ... field values": the codec's payload must carry the source's bits in
+            # every field position (value-level tolerances - wide fields, non-finite floats - are C02's business)
+            diff = (int.from_bytes(codec_payload, "little") ^ payload) & d.field_mask_union()
+            if diff:
+                bad = [f for f in d.fields if diff & (f.mask << f.off)]
+                if all(f.bits > 48 or f.ftype == "FLOAT" for f in bad):
+                    acc.count("payload_differs_in_wide_or_float_field_judged_by_C02")
+                else:
+                    f = next(f for f in bad if not (f.bits > 48 or f.ftype == "FLOAT"))
+                    acc.violation("encoded-payload-differs-from-source", f"{d.id}.{f.id} ({label}): source bits {(payload >> f.off) & f.mask:#x}, encoder wrote "
+                                  f"{(int.from_bytes(codec_payload, 'little') >> f.off) & f.mask:#x}",
+                                  {"definition": d.id, "label": label, "payload_hex": payload.to_bytes(nb, "little").hex(), "encoded_hex": codec_payload.hex()})
+            else:
+                acc.count("source_bits_reproduced")
             expect = src_dec.decode_basic_string(wire.plain_line(prio, d.pgn, src, dst if pdu1 else 255, codec_payload), already_combined=True)
             for fmt in FORMATS:
                 w = {"definition": d.id, "fmt": fmt, "prio": prio, "src": src, "dst": dst, "payload_hex": codec_payload.hex()}
